@@ -369,13 +369,25 @@ theorem roll_roll {α : Type} (s1 s2 : Int) (l : List α) : roll s2 (roll s1 l) 
 
 /-! ### declared shape of `np_stack` vs NumPy -/
 
-/-- for `0 ≤ axis ≤ ndim` the declared shape (Python `list.insert`) is NumPy's -/
-theorem stackShape_eq_np_of_nonneg (s : Shape) (n : Nat) (ax : Nat) (h : ax ≤ s.length) :
-    npStackShape s n (ax : Int) = some (stackShape s n (ax : Int)) := by
-  have h1 : (0 : Int) ≤ (ax : Int) ∧ (ax : Int) < ((s.length + 1 : Nat) : Int) := by omega
-  have h2 : ¬ ((ax : Int) < 0) := by omega
-  have h3 : ¬ ((ax : Int) > (s.length : Int)) := by omega
-  have h4 : (ax : Int) < (s.length : Int) + 1 := by omega
-  simp [npStackShape, stackShape, pyInsert, normAxis, h2, h3, h4]
+/-- for every valid axis `-(ndim+1) ≤ axis ≤ ndim` the declared shape is NumPy's -/
+theorem stackShape_eq_np (s : Shape) (n : Nat) (ax : Int)
+    (h1 : -((s.length : Int) + 1) ≤ ax) (h2 : ax ≤ (s.length : Int)) :
+    npStackShape s n ax = some (stackShape s n ax) := by
+  unfold npStackShape stackShape pyInsert normAxis
+  by_cases hneg : ax < 0
+  · have e : ax % ((s.length : Int) + 1) = ax + ((s.length : Int) + 1) := by
+      rw [← Int.add_emod_right, Int.emod_eq_of_lt (by omega) (by omega)]
+    have c1 : ¬ (0 ≤ ax ∧ ax < ((s.length + 1 : Nat) : Int)) := by omega
+    have c2 : -((s.length + 1 : Nat) : Int) ≤ ax ∧ ax < 0 := by constructor <;> omega
+    have c3 : ¬ (ax + ((s.length : Int) + 1) < 0) := by omega
+    have c4 : ¬ (ax + ((s.length : Int) + 1) > (s.length : Int)) := by omega
+    simp only [e, c1, c2, c3, c4, if_false, if_true, and_self]
+    have : (ax + ((s.length + 1 : Nat) : Int)).toNat = (ax + ((s.length : Int) + 1)).toNat := by
+      congr 1
+    simp [this]
+  · have e : ax % ((s.length : Int) + 1) = ax := Int.emod_eq_of_lt (by omega) (by omega)
+    have c1 : 0 ≤ ax ∧ ax < ((s.length + 1 : Nat) : Int) := by constructor <;> omega
+    have c4 : ¬ (ax > (s.length : Int)) := by omega
+    simp only [e, c1, hneg, c4, if_false, if_true, and_self]
 
 end MpycV.Arr
